@@ -651,6 +651,45 @@ pub fn run_life_replay(args: &LifeReplayArgs) -> Outcome {
     out
 }
 
+/// The only worker is parked right before it announces a flush task with its blocking
+/// send(Flush); meanwhile the queue is filled to capacity; released, the worker blocks in that
+/// send.  Does the drop of the last handle return?
+pub fn forced_worker_blocked_in_send(root: &Path) -> Value {
+    let dir = util::fresh_dir(root, "life_wsend");
+    fjall::verif::disarm_all();
+    fjall::verif::trace_start();
+    let db = match Database::builder(&dir).worker_threads_unchecked(1).open() {
+        Ok(d) => d,
+        Err(e) => return json!({"error": format!("open: {e:?}")}),
+    };
+    let ks = db.keyspace("a", || KeyspaceCreateOptions::default().max_memtable_size(500)).unwrap();
+    fjall::verif::arm("RotSendFlush", 0, 0);
+    // over the memtable limit: a rotation is requested and executed by the worker
+    for i in 0..20 {
+        ks.insert(format!("k{i}").as_bytes(), vec![b'v'; 100]).unwrap();
+    }
+    let parked = fjall::verif::wait_parked("RotSendFlush", 5000).is_some();
+    // fill the queue (capacity 1000) with compaction requests
+    for _ in 0..1100 {
+        ks.verif_request_compaction();
+    }
+    fjall::verif::disarm_all();
+    std::thread::sleep(Duration::from_millis(200)); // the worker is inside send(Flush) now
+    drop(ks);
+    let returned = with_watchdog(8000, move || drop(db)).is_some();
+    let lock_free = lock_is_free(&dir);
+    fjall::verif::trace_stop();
+    let evs = ev_names(&events());
+    if returned {
+        let _ = std::fs::remove_dir_all(&dir);
+    }
+    json!({
+        "scenario": "the only worker is blocked in its blocking send(Flush) on the full queue when the last handle is dropped",
+        "worker_parked_before_send": parked, "drop_returned": returned, "lock_free_after_drop": lock_free,
+        "events": evs.into_iter().filter(|e| e.starts_with("DbDrop") || e.starts_with("Worker") || e == "Unlock" || e == "JournalDropped").collect::<Vec<_>>(),
+    })
+}
+
 pub fn run_forced(which: &str) -> Value {
     let root = util::scratch_root();
     let r = match which {
@@ -658,6 +697,7 @@ pub fn run_forced(which: &str) -> Value {
         "worker-dec" => forced_worker_exit(&root, "WorkerDec"),
         "worker-fail" => forced_worker_fail(&root),
         "stranded" => forced_stranded_message(&root),
+        "worker-send" => forced_worker_blocked_in_send(&root),
         "absent-marker" => forced_absent_marker(&root),
         _ => json!({"error": "unknown scenario"}),
     };
